@@ -99,10 +99,15 @@ class StreamItemQueue:
         try:
             await self._produce(self)
         except Exception as error:
-            # settle the pending item futures and clean up the source
-            # before delivering the failure
+            # Let the still pending item futures settle and clean up the source
+            # before delivering the failure. The items yielded before the failure
+            # must not be cancelled, since they are still delivered in order
+            # ahead of the failure; a cancelled item would raise a CancelledError
+            # in the consumer of the batches, and the failure would be lost.
+            pending = [future for future in self._pending_futures if not future.done()]
+            if pending:
+                await gather(*pending, return_exceptions=True)
             self._aborted = True
-            await self._settle_pending()
             on_abort = self._on_abort
             if on_abort is not None:
                 cleanup = on_abort(error)
